@@ -29,7 +29,7 @@ class C11(Prop):
         for inputs in [(), (5,), (5, 6), (5, 6, 7), (0, "", 3), ([], 1)]:
             for _ in range(n_hist):
                 evals += 1
-                ops = [rnd.choice(["?", "+", "_", "λ_;†", "1 λ?;†", "λ?_?;†", "2 3 λ2|+;†", "∇", "1 λ_X;†", "λW;2*†∑", "λ+;2*†", "@f:2|+;@f;"]) for _ in range(rnd.randrange(1, maxlen))]
+                ops = [rnd.choice(["?", "+", "_", "λ_;†", "1 λ?;†", "λ?_?;†", "2 3 λ2|+;†", "∇", "1 λ_X;†", "λW;2*†∑", "λ+;2*†", "@f:2|+;@f;", "⟨1|2|3⟩λ+;2*M∑"]) for _ in range(rnd.randrange(1, maxlen))]
                 prog = " ".join(ops) + " W"
                 r = rc.run_program(prog, inputs)
                 if r["error"] is not None:
@@ -90,6 +90,8 @@ class C11(Prop):
                 if not (isinstance(a, int) and isinstance(b, int)):
                     return None
                 st.append(a + b)
+            elif op == "⟨1|2|3⟩λ+;2*M∑":  # mapped over a list, the lambda gets ONE argument per call whatever arity was stored on it: x + (implicit read of its own scope = x)
+                st.append(12)
             elif op == "1 λ_X;†":
                 st.append(1)
                 a = pop()
@@ -109,10 +111,32 @@ class C11(Prop):
     def stale_search(self, W, key, seed):
         return self.history_search(seed, 80)
 
+    def entry_point_cases(self):
+        """through execute_vyxal (not a hand-built context): the inputs given are the inputs read, in order, an empty string included"""
+        import contextlib
+        import io
+        from vyxal.main import execute_vyxal
+
+        n = 0
+        for prog, inputs, want in (("?,?,?,", ["", "7"], "\n7\n\n"), ("?,?,", ["", ""], "\n\n"), ("?,?,?,", ["5", "", "6"], "5\n\n6\n"), ("+,", ["3", "4"], "7\n"), ("?,", [""], "\n"), ("_?,", ["1", "2"], "2\n")):
+            n += 1
+            buf = io.StringIO()
+            try:
+                with contextlib.redirect_stdout(buf):
+                    execute_vyxal(prog, "eO", list(inputs))
+                got = buf.getvalue()
+            except BaseException as e:  # noqa
+                got = f"raised {type(e).__name__}: {e}"
+            if got != want:
+                return dict(program=prog, inputs=repr(inputs), stack=repr(got), expected=repr(want), entry_point="execute_vyxal"), n
+        return None, n
+
     def bounded(self, W, tier, seed):
         n = 40 if tier != "thorough" else 1500
         w = self.history_search(seed, n, 12)
-        return [dict(name="C11/bounded-read-histories", what="random read histories (explicit ?, implicit pops of arity 1-3, reads inside lambda scopes, early exit) on input lists of length 0..3 incl. falsy values, run on the real interpreter against a reference written from the property statement", bound=f"{n} histories x 6 input lists, length <= 12", evaluations=self.last_n, label="bounded", failures=[w] if w else [])]
+        w2, n2 = self.entry_point_cases()
+        w = w or w2
+        return [dict(name="C11/bounded-read-histories", what="random read histories (explicit ?, implicit pops of arity 1-3, reads inside lambda scopes, early exit) on input lists of length 0..3 incl. falsy values, run on the real interpreter against a reference written from the property statement; six programs through execute_vyxal with empty-string inputs", bound=f"{n} histories x 6 input lists, length <= 12", evaluations=self.last_n, label="bounded", failures=[w] if w else [])]
 
     def run_replay(self, path):
         import json
